@@ -144,6 +144,23 @@ pub struct CnfCase {
     pub layouts: Vec<u32>,
     pub with_proof: bool,
     pub seed: u64,
+    /// learning options passed on the command line (0: defaults), see `learning_args`
+    #[serde(default)]
+    pub opts: u8,
+}
+
+/// Small nogood-database limits make clean-up, id reuse and LBD tiers run on small formulas.
+fn learning_args(opts: u8) -> Vec<String> {
+    if opts % 3 == 0 {
+        return vec![];
+    }
+    let max_clauses = [0, 1, 2, 4, 8][(opts as usize / 3) % 5];
+    let lbd = [0, 1, 2, 3][(opts as usize / 15) % 4];
+    let mut v = vec!["--learning-max-num-clauses".to_string(), max_clauses.to_string(), "--learning-lbd-threshold".to_string(), lbd.to_string()];
+    if opts >= 128 {
+        v.push("--no-learning-minimise".to_string());
+    }
+    v
 }
 
 pub struct CnfProp;
@@ -241,13 +258,22 @@ impl Property for CnfProp {
             let m = (n as f64 * 4.3) as usize;
             (Just(n), proptest::collection::vec(clause_strategy(n), m - 5..=m + 5))
         });
-        let formula = if tier == Tier::Quick { small.boxed() } else { prop_oneof![6 => small, 1 => large].boxed() };
-        (formula, proptest::collection::vec(any::<u32>(), 3..=3), any::<bool>(), 0u64..4)
-            .prop_map(|((num_vars, mut clauses), layouts, with_proof, seed)| {
+        // random 3-SAT around the satisfiability threshold with 15-26 variables: hard enough for dozens of
+        // conflicts, small enough for the certificate checks (model evaluation, RUP check of the proof)
+        let three_lit = |n: usize| proptest::collection::vec((1..=n as i32, any::<bool>()).prop_map(|(v, s)| if s { v } else { -v }), 3..=3);
+        let medium = (15usize..=26).prop_flat_map(move |n| {
+            let m = (n as f64 * 4.3) as usize;
+            (Just(n), proptest::collection::vec(three_lit(n), m - 4..=m + 4))
+        });
+        let formula = if tier == Tier::Quick { prop_oneof![5 => small, 2 => medium].boxed() } else { prop_oneof![6 => small, 3 => medium, 1 => large].boxed() };
+        (formula, proptest::collection::vec(any::<u32>(), 3..=3), any::<bool>(), 0u64..4, any::<u8>())
+            .prop_map(|((num_vars, mut clauses), layouts, with_proof, seed, opts)| {
                 if num_vars == 0 {
                     clauses.retain(|c| c.is_empty());
                 }
-                CnfCase { num_vars, clauses, layouts, with_proof, seed }
+                // beyond brute force an UNSAT verdict can only be judged through its proof
+                let with_proof = with_proof || num_vars > 16;
+                CnfCase { num_vars, clauses, layouts, with_proof, seed, opts }
             })
             .boxed()
     }
@@ -269,7 +295,7 @@ impl Property for CnfProp {
     fn run(&self, case: &CnfCase) -> Verdict {
         let mut out = Outcome::default();
         let n = case.num_vars;
-        let reference = if n <= 20 { Some(brute_force_sat(n, &case.clauses)) } else { None };
+        let reference = if n <= 16 { Some(brute_force_sat(n, &case.clauses)) } else { None };
         let degenerate = case.clauses.is_empty() || case.clauses.iter().any(|c| c.is_empty()) || {
             let mut sorted = case.clauses.clone();
             sorted.sort();
@@ -287,6 +313,7 @@ impl Property for CnfProp {
             std::fs::write(&input, &text).expect("write cnf");
             let proof_path = scratch_file("drat");
             let mut args = vec![input.to_string_lossy().to_string(), "--random-seed".into(), case.seed.to_string()];
+            args.extend(learning_args(case.opts));
             let use_proof = case.with_proof && li == 0;
             if use_proof {
                 args.push("--proof-path".into());
